@@ -41,10 +41,12 @@ IdsFor(leaf) ==
    X(Inter), X(Root),                                        \* a CA's subject
    X([C |-> "DE", ST |-> "BY", O |-> "Other"]),
    [kind |-> "other", dn |-> NoDN], [kind |-> "wildcard", dn |-> NoDN]}
+  \cup {[kind |-> b, dn |-> NoDN] : b \in BadKinds}           \* identities that cannot be interpreted (unvalidated lists only)
   \cup (IF WithEmptyAttr THEN {X(With(Restrict(d, {"C", "ST", "O"}), "OU", ""))} ELSE {})   \* attribute with an empty value
 
 (* lists a valid policy can carry: the wildcard alone; no x509 identity a subset of another (R24) *)
 ValidList(ids) == /\ ((\E k \in DOMAIN ids : ids[k].kind = "wildcard") => Len(ids) = 1)
+                  /\ Cardinality({k \in DOMAIN ids : ids[k].kind \in BadKinds}) <= 1
                   /\ \A i, j \in DOMAIN ids : (i # j /\ ids[i].kind = "x509" /\ ids[j].kind = "x509") => ~SubsetDN(ids[i].dn, ids[j].dn)
                   /\ \A i, j \in DOMAIN ids : (i # j) => ids[i] # ids[j]
 
@@ -63,7 +65,7 @@ Done == s.pc = "done"
 AuthRes(t) == {t.results[i].failed : i \in {j \in 1..Len(t.results) : t.results[j].type = "authenticity"}}
 D_IdentityPasses(d) ==
   \/ \E k \in DOMAIN d.ids : d.ids[k].kind = "wildcard"
-  \/ (d.leaf.ok /\ \E k \in DOMAIN d.ids : d.ids[k].kind = "x509" /\
+  \/ (d.leaf.ok /\ (\A k \in DOMAIN d.ids : d.ids[k].kind \notin BadKinds) /\ \E k \in DOMAIN d.ids : d.ids[k].kind = "x509" /\
         \A a \in DOMAIN d.ids[k].dn : a \in DOMAIN d.leaf.dn /\ d.leaf.dn[a] = d.ids[k].dn[a])
 Inv_C04 == Done => AuthRes(s) = {~D_IdentityPasses(s.in.dn)}
 (* never on the strength of an intermediate's or root's subject: those identities alone do not pass *)
